@@ -16,6 +16,13 @@ use std::cell::RefCell;
 use std::rc::Rc;
 
 #[derive(Clone, Debug, PartialEq)]
+enum Special {
+    None,
+    EarlierSessionKey([u8; 16]),
+    Unprotected,
+}
+
+#[derive(Clone, Debug, PartialEq)]
 enum Expect {
     /// the client must fail and write nothing more
     Reject,
@@ -37,10 +44,26 @@ fn carries_honest_token(bytes: &[u8], honest_token: &[u8]) -> bool {
     }
 }
 
-fn forge(ctx: &mut Ctx, fc: &mut FinalCtx, thorough_bit: Option<usize>) -> (Vec<Vec<u8>>, Expect, String) {
+fn forge(ctx: &mut Ctx, fc: &mut FinalCtx, thorough_bit: Option<usize>, special: &Special) -> (Vec<Vec<u8>>, Expect, String) {
     let key = fc.honest_key.to_vec();
     let honest_plain = increment_le(&key);
     let v = fc.cssp_version;
+    match special {
+        Special::EarlierSessionKey(prev) => {
+            // the peer learnt the session key of an earlier connection made with the same connector; it does not know
+            // the password, so it cannot know this connection's key
+            let t = SealCtx::new(prev, true).seal(&honest_plain);
+            let e = if *prev == fc.exported_session_key { Expect::Reject } else { Expect::Reject };
+            return (vec![reply(v, t)], e, "sealed-under-the-session-key-of-an-earlier-connection".into());
+        }
+        Special::Unprotected => {
+            // the server negotiated neither SIGN nor SEAL in its CHALLENGE and answers in clear under a dummy signature
+            let mut t = vec![1u8, 0, 0, 0, 0, 0, 0, 0, 0, 0, 0, 0, 0, 0, 0, 0];
+            t.extend_from_slice(&honest_plain);
+            return (vec![reply(v, t)], Expect::Reject, "clear-text-under-dummy-signature".into());
+        }
+        Special::None => {}
+    }
     let family = if thorough_bit.is_some() { 1 } else { ctx.choose("forgery_family", 14) };
     match family {
         0 => {
@@ -169,6 +192,10 @@ fn forge(ctx: &mut Ctx, fc: &mut FinalCtx, thorough_bit: Option<usize>) -> (Vec<
     }
 }
 
+fn walk_requested(env: &Env) -> bool {
+    env.thorough && env.case % 2 == 0
+}
+
 pub fn run(env: &mut Env) -> Outcome {
     let ctxrc = env.ctx.clone();
     let (cfg, params, net) = {
@@ -187,19 +214,48 @@ pub fn run(env: &mut Env) -> Outcome {
         ctx.step_budget = 100_000;
         (cfg, params, net)
     };
+    let mut connector = cfg.connector();
+    let mut special = Special::None;
+    {
+        let mut ctx = ctxrc.borrow_mut();
+        crate::scen::session::seed_client_randomness(&mut ctx);
+    }
+    let which_special = if walk_requested(env) { 0 } else { ctxrc.borrow_mut().choose("special_history", 10) };
+    if which_special == 1 {
+        // an honest, complete NLA connection first, with the same connector object
+        let pworld = World::new(ctxrc.clone(), ServerParams::default_for(2), crate::wire::NetCfg::benign());
+        let pnla = { let mut ctx = ctxrc.borrow_mut(); crate::scen::session::make_nla(&mut ctx, &cfg) };
+        let pres = pnla.results.clone();
+        pworld.server.borrow_mut().nla = Some(Box::new(pnla));
+        match Session::connect_with(pworld, &cfg, &mut connector) {
+            Ok(mut s) => { if s.client.is_some() { let _ = s.shutdown(); } }
+            Err(o) => return o,
+        }
+        match pres.borrow().exported_session_key {
+            Some(k) => special = Special::EarlierSessionKey(k),
+            None => return viol("c01/session-not-established", "earlier-connection", "the earlier honest connection did not complete NLA".to_string()),
+        }
+        ctxrc.borrow_mut().probe("earlier_connection_same_connector");
+    } else if which_special == 2 {
+        special = Special::Unprotected;
+    }
     let world = World::new(ctxrc.clone(), params.clone(), net);
     let mut nla = {
         let mut ctx = ctxrc.borrow_mut();
-        crate::scen::session::seed_client_randomness(&mut ctx);
         crate::scen::session::make_nla(&mut ctx, &cfg)
     };
+    if special == Special::Unprotected {
+        nla.challenge_flags_clear = 0x30;
+        ctxrc.borrow_mut().probe("challenge_without_sign_and_seal");
+    }
     let results = nla.results.clone();
     let verdict: Rc<RefCell<Option<(Expect, String)>>> = Rc::new(RefCell::new(None));
     let v2 = verdict.clone();
     // thorough tier: every other case walks the bit positions of the honest reply
     let walk = if env.thorough && env.case % 2 == 0 { Some((env.case / 2 / FIXTURES.len() as u64) as usize) } else { None };
+    let special2 = special.clone();
     nla.final_reply = Some(Box::new(move |ctx: &mut Ctx, fc: &mut FinalCtx| {
-        let (replies, expect, name) = forge(ctx, fc, walk);
+        let (replies, expect, name) = forge(ctx, fc, walk, &special2);
         ctx.fault("final_reply_forgery");
         ctx.key_str(&name);
         ctx.key_add(fc.cert_index as u64);
@@ -208,7 +264,7 @@ pub fn run(env: &mut Env) -> Outcome {
         replies
     }));
     world.server.borrow_mut().nla = Some(Box::new(nla));
-    let s = Session::connect(World { ctx: world.ctx.clone(), wire: world.wire.clone(), cfg: world.cfg.clone(), server: world.server.clone() }, &cfg);
+    let s = Session::connect_with(World { ctx: world.ctx.clone(), wire: world.wire.clone(), cfg: world.cfg.clone(), server: world.server.clone() }, &cfg, &mut connector);
     rdp::model::rnd::verif::install(None);
     let s = match s {
         Ok(s) => s,
@@ -217,6 +273,12 @@ pub fn run(env: &mut Env) -> Outcome {
     world.pump();
     world.pump();
     let res = results.borrow();
+    if special == Special::Unprotected && verdict.borrow().is_none() {
+        // the client's own pubKeyAuth was not sealed: it followed the server into an unprotected exchange
+        if let Some(Err(e)) = &res.pubkeyauth_plain {
+            return viol("c01/unprotected-exchange", "client-pubKeyAuth-not-sealed", format!("after a CHALLENGE without SIGN/SEAL the client's pubKeyAuth does not unseal under the session keys: {}", e));
+        }
+    }
     let srv = world.server.borrow();
     let (expect, name) = match verdict.borrow().clone() {
         Some(x) => x,
